@@ -339,7 +339,22 @@ func c03RandOutbound(r *VRand, stats *VStats) (ob uint8, must bool, mark uint32)
 
 // a random program aimed at the flows of the scenario; returns the lowered images and the number of
 // domain-set entries' array positions (for dom bitmaps)
-func c03RandProgram(r *VRand, flows []*c03Flow, stats *VStats) (imgs []string, domIdx []int) {
+type c03Prog struct {
+	imgs    []string
+	domIdx  []int
+	lpmOps  []string // lpm <slot> <n> keys...
+	metaLen int
+}
+
+func c03LpmKey(plen int, data [16]byte) string {
+	return fmt.Sprintf("%d:%s", plen, hex.EncodeToString(data[:]))
+}
+
+func c03RandProgram(r *VRand, flows []*c03Flow, stats *VStats) (prog c03Prog) {
+	var imgs []string
+	var domIdx []int
+	slotBase := uint32(r.Intn(1000))
+	nslots := uint32(0)
 	var rules []c03Rule
 	n := r.Intn(5)
 	if r.Chance(0.1) {
@@ -353,7 +368,46 @@ func c03RandProgram(r *VRand, flows []*c03Flow, stats *VStats) (imgs []string, d
 			f := flows[r.Intn(len(flows))]
 			var cond c03Cond
 			cond.not = r.Chance(0.15)
-			switch r.Intn(8) {
+			switch r.Intn(11) {
+			case 8, 9, 10:
+				// address / MAC sets: an LPM trie per condition, aimed at the flow (both directions' addresses)
+				slot := slotBase + nslots
+				nslots++
+				var keys []string
+				switch r.Intn(3) {
+				case 0:
+					cond.typ = consts.MatchType_IpSet
+					a := f.dip
+					if r.Chance(0.3) {
+						a = f.sip
+					}
+					keys = append(keys, c03LpmKey([]int{128, 128, 120, 104, 64, 0}[r.Intn(6)], a))
+				case 1:
+					cond.typ = consts.MatchType_SourceIpSet
+					a := f.sip
+					if r.Chance(0.3) {
+						a = f.dip
+					}
+					keys = append(keys, c03LpmKey([]int{128, 128, 120, 104, 64}[r.Intn(5)], a))
+				default:
+					cond.typ = consts.MatchType_Mac
+					var m16 [16]byte
+					mac := f.cmac
+					if r.Chance(0.25) {
+						mac = f.gmac
+					}
+					copy(m16[10:], mac[:])
+					keys = append(keys, c03LpmKey(128, m16))
+					if r.Chance(0.2) {
+						keys = append(keys, c03LpmKey(128, [16]byte{})) // the zero MAC of L3 links
+					}
+				}
+				cond.alts = append(cond.alts, c03U32Val(slot))
+				if r.Chance(0.92) {
+					prog.lpmOps = append(prog.lpmOps, fmt.Sprintf("lpm %d %d %s", slot, len(keys), strings.Join(keys, " ")))
+				} else {
+					stats.Inc("rule.lpm-slot-missing") // route() fails with -EFAULT when it reaches this condition
+				}
 			case 0, 1:
 				cond.typ = consts.MatchType_Port
 				lo := f.dport
@@ -406,8 +460,21 @@ func c03RandProgram(r *VRand, flows []*c03Flow, stats *VStats) (imgs []string, d
 	}
 	fb := c03Rule{conds: []c03Cond{{typ: consts.MatchType_Fallback, alts: [][16]byte{{}}}}}
 	fb.outbound, fb.must, fb.mark = c03RandOutbound(r, stats)
-	rules = append(rules, fb)
+	if r.Chance(0.92) || len(rules) == 0 && r.Chance(0.5) {
+		rules = append(rules, fb)
+	} else {
+		stats.Inc("prog.no-fallback") // route() returns -EPERM when no rule hits
+	}
 	imgs = c03Lower(rules)
+	prog.imgs, prog.domIdx, prog.metaLen = imgs, domIdx, len(imgs)
+	switch x := r.Intn(40); {
+	case x == 0:
+		prog.metaLen = 0
+		stats.Inc("prog.meta0")
+	case x == 1 && len(imgs) > 1:
+		prog.metaLen = len(imgs) - 1 // active length shorter than the program: the tail (fallback) is not consulted
+		stats.Inc("prog.meta-short")
+	}
 	return
 }
 
@@ -419,9 +486,20 @@ type c03Gen struct {
 	clock  uint64
 	ctlPid uint32
 	smark  uint32
+	netns  uint32
 }
 
 func (g *c03Gen) c(op string) { g.st.Emit(op, "-") }
+
+func (g *c03Gen) emitProg(p c03Prog) {
+	for _, op := range p.lpmOps {
+		g.c(op)
+	}
+	if len(p.imgs) > 0 {
+		g.c(fmt.Sprintf("rules %d %s", len(p.imgs), strings.Join(p.imgs, " ")))
+	}
+	g.c(fmt.Sprintf("meta %d", p.metaLen))
+}
 
 func (g *c03Gen) emitProgram(imgs []string) {
 	g.c(fmt.Sprintf("rules %d %s", len(imgs), strings.Join(imgs, " ")))
@@ -610,9 +688,10 @@ func (g *c03Gen) scenario(r *VRand, rp *VRand, id int, tag string, steps int) {
 		g.smark = 0x8ae0
 	}
 	usePeer := r.Chance(0.3)
-	g.c(fmt.Sprintf("param %d %d %d %d %s", g.ctlPid, g.smark, 9, c03B2u(usePeer), "0a0b0c0d0e0f"))
+	g.netns = []uint32{0, 4026531999, 4026532100}[r.Intn(3)]
+	g.c(fmt.Sprintf("param %d %d %d %d %s %d", g.ctlPid, g.smark, 9, c03B2u(usePeer), "0a0b0c0d0e0f", g.netns))
 	if r.Chance(0.05) {
-		g.c(fmt.Sprintf("param %d %d %d %d %s", 0, g.smark, 9, c03B2u(usePeer), "0a0b0c0d0e0f"))
+		g.c(fmt.Sprintf("param %d %d %d %d %s %d", 0, g.smark, 9, c03B2u(usePeer), "0a0b0c0d0e0f", g.netns))
 		g.stats.Inc("param.ctlpid0")
 	}
 	nf := 2 + r.Intn(4)
@@ -669,8 +748,9 @@ func (g *c03Gen) scenario(r *VRand, rp *VRand, id int, tag string, steps int) {
 			}
 		}
 	}
-	imgs, domIdx := c03RandProgram(r, flows, g.stats)
-	g.emitProgram(imgs)
+	prog := c03RandProgram(r, flows, g.stats)
+	domIdx := prog.domIdx
+	g.emitProg(prog)
 	setDom := func() {
 		if len(domIdx) == 0 {
 			return
@@ -768,6 +848,10 @@ func (g *c03Gen) scenario(r *VRand, rp *VRand, id int, tag string, steps int) {
 				if hi == 1 && r.Chance(0.5) {
 					break
 				}
+				if hop.hook == "le" && r.Chance(0.15) {
+					hop.iif = 0 // locally generated frame leaving through the LAN (NDP redirect drop applies)
+					g.stats.Inc("le.iif0")
+				}
 				fr := c03Frame(f, fwd, flags, hop.l2, m)
 				lin, pull := c03Path(rp, len(fr), g.stats)
 				mark := uint32(0)
@@ -788,14 +872,55 @@ func (g *c03Gen) scenario(r *VRand, rp *VRand, id int, tag string, steps int) {
 				} else if r.Chance(0.05) {
 					mark = uint32(r.Intn(4)) << 7
 				}
-				sk := "-"
-				if hop.hook == "li" && r.Chance(0.12) {
-					sk = []string{"0:10", "0:1", fmt.Sprintf("%d:10", g.smark), fmt.Sprintf("%d:7", g.smark), "5:7"}[r.Intn(5)]
-					g.stats.Inc("li.socket-found")
-				}
 				proto := f.skbProto()
 				if m != nil && m.ethProto != 0 && r.Bool() {
 					proto = int(m.ethProto)
+				}
+				sk := "-"
+				if (hop.hook == "li" && r.Chance(0.15)) || (hop.hook != "li" && r.Chance(0.01)) {
+					// one socket of the host's table: found only under the exact struct bpf_sock_tuple the hook must
+					// build (family by the frame's ethertype, saddr, daddr, sport, dport in network order) and netns
+					sip, dip, sp, dp := f.sip, f.dip, f.sport, f.dport
+					if !fwd {
+						sip, dip, sp, dp = dip, sip, dp, sp
+					}
+					v6 := f.v6
+					kind := "exact"
+					switch r.Intn(10) {
+					case 0:
+						sip, dip = dip, sip
+						kind = "addr-swapped"
+					case 1:
+						sp, dp = dp, sp
+						kind = "port-swapped"
+					case 2:
+						v6 = !v6
+						kind = "other-family"
+					}
+					var tu []byte
+					if v6 {
+						tu = append(append(tu, sip[:]...), dip[:]...)
+					} else {
+						tu = append(append(tu, sip[12:]...), dip[12:]...)
+					}
+					tu = append(tu, byte(sp>>8), byte(sp), byte(dp>>8), byte(dp))
+					ns := g.netns
+					if r.Chance(0.1) {
+						ns++
+						kind = "other-netns"
+					}
+					l4 := 17
+					if f.tcp {
+						l4 = 6
+					}
+					if r.Chance(0.08) {
+						l4 = 23 - l4
+						kind = "other-proto"
+					}
+					mk := []uint32{0, 0, g.smark, 5}[r.Intn(4)]
+					state := []int{10, 10, 1, 7}[r.Intn(4)]
+					sk = fmt.Sprintf("%d:%d:%d:%d:%s", l4, mk, state, ns, hex.EncodeToString(tu))
+					g.stats.Inc("socket." + kind)
 				}
 				g.frameOp(hop, proto, fr, lin, pull, mark, cookie, sk)
 				if (hop.hook == "li" || hop.hook == "we") && r.Chance(0.35) {
@@ -805,8 +930,9 @@ func (g *c03Gen) scenario(r *VRand, rp *VRand, id int, tag string, steps int) {
 		case x < 76:
 			g.advance(r)
 		case x < 82:
-			imgs, domIdx = c03RandProgram(r, flows, g.stats)
-			g.emitProgram(imgs)
+			prog = c03RandProgram(r, flows, g.stats)
+			domIdx = prog.domIdx
+			g.emitProg(prog)
 			g.stats.Inc("op.rule-swap")
 		case x < 86:
 			setDom()
@@ -972,7 +1098,7 @@ var c03ConstNames = []string{
 	"OUTBOUND_DIRECT", "OUTBOUND_BLOCK", "OUTBOUND_MUST_RULES", "OUTBOUND_CONTROL_PLANE_ROUTING", "TPROXY_MARK",
 	"TC_ACT_OK", "TC_ACT_SHOT", "TC_ACT_PIPE", "TC_ACT_REDIRECT", "UDP_CONN_STATE_TIMEOUT_NS",
 	"UDP_CONN_STATE_UPDATE_INTERVAL_NS", "TCP_CONN_STATE_ESTABLISHED_TIMEOUT_NS", "TCP_CONN_STATE_CLOSING_TIMEOUT_NS",
-	"TCP_CONN_STATE_UPDATE_INTERVAL_NS", "HEADER_PULL_SIZE", "IPV6_MAX_EXTENSIONS", "PARSE_FRAGMENT", "NDP_REDIRECT",
+	"TCP_CONN_STATE_UPDATE_INTERVAL_NS", "IPV6_MAX_EXTENSIONS", "PARSE_FRAGMENT", "NDP_REDIRECT",
 	"TCP_STATE_ACTIVE", "TCP_STATE_CLOSING", "BPF_TCP_LISTEN", "DAE_EVENT_BLOCKED", "DAE_EVENT_UDP_CONN_OVERFLOW",
 	"DAE_EVENT_TCP_CONN_OVERFLOW",
 	"sizeof_tuples_key", "off_tuples_key_sip", "off_tuples_key_dip", "off_tuples_key_sport", "off_tuples_key_dport",
@@ -1033,6 +1159,15 @@ func (g *c03Gen) witnesses() {
 	g.c("clock 31000000000")
 	g.frameOp(we, c03EthIP, syn, len(syn), 1, 0, 6, "-")
 	g.frameOp(we, c03EthIP, ack, len(ack), 1, 0, 6, "-")
+	// W4 (observation, not a violation): a pure SYN in the REVERSE direction restarts tracking as a WAN-originated
+	// connection; the tracked (proxied) flow's later packets then pass untouched
+	setup("reverse-syn-restarts")
+	g.emitProgram(group2)
+	g.frameOp(li, c03EthIP, syn, len(syn), 1, 0, 0, "-")
+	g.frameOp(li, c03EthIP, ack, len(ack), 1, 0, 0, "-")
+	rsyn := c03Frame(&t, false, c03FlagSYN, true, nil)
+	g.frameOp(c03Hop{"wi", true, 2, 2}, c03EthIP, rsyn, len(rsyn), 1, 0, 0, "-")
+	g.frameOp(li, c03EthIP, ack, len(ack), 1, 0, 0, "-")
 	// W3 (fixed by e3060cb): SYN-ACK parsed by both paths; reply of a WAN-opened connection
 	setup("synack-parse-paths")
 	sa := c03Frame(&t, true, c03FlagSYN|c03FlagACK, true, nil)
@@ -1256,15 +1391,10 @@ func TestVerifC03Retr(t *testing.T) {
 				}
 				key := bpfTuplesKeyFromAddrPorts(src, dst, uint8(l4))
 				keyHex := hex.EncodeToString(unsafe.Slice((*byte)(unsafe.Pointer(&key)), unsafe.Sizeof(key)))
-				// boundary guard: real time keeps running while we look up
+				// the hand-off entry of the looked-up key (if any) and its age on the harness clock at lookup time
+				hoAge, hoPresent := int64(0), false
 				if hv, ok := ho[keyHex]; ok && len(hv) >= 8 {
-					last := binary.NativeEndian.Uint64(hv)
-					delta := int64(shimNow + age - last)
-					lim := routingHandoffTimeout.Nanoseconds()
-					if delta > lim-200000000 && delta < lim+200000000 {
-						stats.Inc("retr.skipped-boundary")
-						return "rr=skip-boundary"
-					}
+					hoAge, hoPresent = int64(shimNow+age-binary.NativeEndian.Uint64(hv)), true
 				}
 				if !kernel {
 					return c03RetrFallback(conn, ho, keyHex, uint8(l4), shimNow+age)
@@ -1309,6 +1439,17 @@ func TestVerifC03Retr(t *testing.T) {
 					return "rr=error:load-ho:" + err.Error()
 				}
 				rr, err := core.RetrieveRoutingResult(src, dst, uint8(l4))
+				// Real time kept running between our clock sample and the one inside RetrieveRoutingResult: by `stall`.
+				// The answer is decided by the host's scheduling (not by the code under test) exactly when the entry's
+				// age is within that stall of the timeout; such lookups are not compared (exact boundaries: `hoexp`).
+				if realNow2, e2 := monotonicNowNano(); e2 == nil && hoPresent {
+					stall := int64(realNow2-realNow) + 20000000
+					lim := routingHandoffTimeout.Nanoseconds()
+					if hoAge > lim-stall && hoAge <= lim+20000000 {
+						stats.Inc("retr.skipped-boundary")
+						return "rr=skip-boundary"
+					}
+				}
 				// an expired hand-off entry is deleted by the lookup: keep our bookkeeping in step
 				if err != nil {
 					if _, ok := loadedHo[keyHex]; ok {
